@@ -49,7 +49,7 @@ class settings(metaclass=MetaSettings):
     default_type_name: Callable[[AnyType], Optional[TypeName]] = default_type_name_
     json_schema_version: JsonSchemaVersion = JsonSchemaVersion.DRAFT_2020_12
 
-    class base_schema:
+    class base_schema(metaclass=ResetCache):
         field: Callable[[AnyType, str, str], Optional[Schema]] = lambda *_: None
         method: Callable[[AnyType, Callable, str], Optional[Schema]] = lambda *_: None
         parameter: Callable[
@@ -57,7 +57,7 @@ class settings(metaclass=MetaSettings):
         ] = lambda *_: None
         type: Callable[[AnyType], Optional[Schema]] = lambda *_: None
 
-    class errors:
+    class errors(metaclass=ResetCache):
         minimum: ConstraintError = "less than {} (minimum)"
         maximum: ConstraintError = "greater than {} (maximum)"
         exclusive_minimum: ConstraintError = (
